@@ -552,7 +552,9 @@ Result exec(const Plan& pl) {
     }
     Slots slots;
     std::vector<std::vector<SlotUse>> uses(static_cast<size_t>(nthr));
+    constexpr uint64_t THREAD_EDGE_BUDGET = 3000000000ull;   // a thread of this engine executes at most ~5e7 edges
     st.run([&](int me) {
+        sim::set_edge_budget(THREAD_EDGE_BUDGET);
         for (size_t i = 0; i < prog[size_t(me)].size(); ++i) {
             const Op& op = prog[size_t(me)][i];
             set_cur_opf("C09 thread %d op %zu %s", me, i, op.kind.c_str());
@@ -609,6 +611,8 @@ Result exec(const Plan& pl) {
     for (int t = 0; t < nthr && res.ok; ++t) {
         std::vector<std::vector<double>> ref;
         run_isolated([&] {
+            sim::set_edge_budget(THREAD_EDGE_BUDGET);
+            set_cur_opf("C09 reference run of thread %d alone", t);
             for (const auto& op : prog[size_t(t)]) {
                 if (op.kind == "pub" || op.kind == "useslot") {
                     ref.push_back({});   // what a slot holds depends on the schedule: checked separately below
